@@ -141,6 +141,36 @@ def run(rep, tier, rng):
                         forms.append(">v%d" % x); probes.append("V i:%d" % x)
                 cases.append((cid, "libs", ["nostd"] + fields_for(g, as_files, style) + forms))
                 meta[cid] = (g, h, as_files, probes)
+    # the file system may CHANGE between attempts: a library (or a dependency) that was missing appears, a broken one is
+    # repaired; every attempt's outcome is that of the graph as it is at that moment
+    late = []
+    healthy = lambda i, deps: "(define-library (l%d) (import (scheme base) %s) (export v%d) (begin (define v%d %d)))" % (
+        i, " ".join("(l%d)" % d for d in deps), i, i, i)
+    late.append(([], [(">(import (l0))", "libNotFound"), ("F", 0), (">(import (l0))", "ok"), (">v0", "V i:0")]))
+    late.append((["Fl0.sld=" + healthy(0, [1])], [(">(import (l0))", "libNotFound"), ("F", 1), (">(import (l0))", "ok"), (">(import (l1))", "ok"), (">v1", "V i:1")]))
+    late.append((["Fl0.sld=(define-library (l0) (export"], [(">(import (l0))", "syntax"), ("F", 0), (">(import (l0))", "ok"), (">v0", "V i:0")]))
+    late.append((["Fl1.sld=" + healthy(1, [])], [(">(import (l0))", "libNotFound"), (">(import (l1))", "ok"), ("F", 0), (">(import (l0))", "ok"), (">v0", "V i:0")]))
+    late.append((["Fl0.sld=" + healthy(0, [1]), "Fl1.sld=" + healthy(1, [2])],
+                 [(">(import (l0))", "libNotFound"), (">(import (l1))", "libNotFound"), ("F", 2), (">(import (l1))", "ok"), (">(import (l0))", "ok")]))
+    for j, (pre, script) in enumerate(late):
+        fields, wants = ["nostd"] + pre, []
+        for item, w in script:
+            if item == "F":
+                fields.append("Fl%d.sld=%s" % (w, healthy(w, [])))
+            else:
+                fields.append(item); wants.append(w)
+        cid = "late%d" % j
+        r = C.run_hx([(cid, "libs", fields)]).get(cid, [])
+        m = C.run_driver([(cid, "libs", fields)]).get(cid, [])
+        rep.count()
+        rep.nontrivial(("late", tuple(fields)))
+        got = ["ok" if x == "N" else (x.split(" ")[1] if x.startswith("E ") else x) for x in r]
+        if got != wants:
+            rep.violation({"what": "after a library file has appeared (or been repaired) an import does not have the outcome the files now determine",
+                           "fields": fields, "expected": wants, "implementation": r})
+        elif [R.norm_result(x) for x in r] != [R.norm_result(x) for x in m]:
+            rep.violation({"broken": "correspondence Interp (file lookup over time) <-> interpreter.rs", "fields": fields,
+                           "implementation": r, "model": m}, no_input=True)
     impl = C.run_hx(cases)
     model = C.run_driver(cases)
     kinds = {}
